@@ -267,6 +267,10 @@ def _expr_place(body, p, depth, max_depth):
     names = _proj_names(proj)
     ds = body.defs().get(l, [])
     if 1 <= l <= body.nargs and not ds:
+        if l == 1 and body.kind == "Closure" and names and isinstance(names[0], int):
+            un = upvar_name(body, names[0])
+            if un:
+                return ("upvar", un) + names[1:]
         return ("arg", l) + names
     if len(ds) != 1:
         return ("place", l) + names
@@ -379,3 +383,14 @@ def field_writes(facts, field_name, owner_pat):
                 if isinstance(lastq, list) and lastq[0] == "f" and len(lastq) > 2 and lastq[2] == field_name and rx.search(b.local_ty(q[0])):
                     out.append((b, bb, idx, "borrow_mut", s))
     return out
+
+
+def upvar_name(body, idx):
+    """source name of captured variable `idx` of a closure / coroutine body (from debug info)"""
+    for v in body.vars:
+        p = v["p"]
+        if p and p[0] == 1:
+            fs = [e for e in p[1:] if isinstance(e, list) and e[0] == "f"]
+            if fs and fs[0][1] == idx and len(fs) == 1:
+                return v["n"]
+    return None
